@@ -396,3 +396,42 @@ def r03_4(ctx, run, rule='R03.4'):
                 ok = True
         (run.proved if ok else run.undecided)(rule, s2s.path, 'number-arm', 'numbers are decoded and printed with Display for Number' if ok else
                                                'no path was recognised that decodes the number and prints it through Display (to_string / write! / format!): how numbers reach the text is not decided', f'{s2s.file}:{s2s.line}')
+
+
+# ------------------------------------------------------------------ R03.8 the two hex digits of a byte are written high nibble first
+
+def r03_8(ctx, run, rule='R03.8'):
+    """Wherever a byte is rendered as two hexadecimal digits pushed one after the other (a table or digit function indexed by `b >> 4` and by
+    `b & 0x0F`), the digit of the high nibble comes first: `\\u001f`, not `\\u00f1`."""
+    f = ctx.facts
+    cone = [p for p in ctx.cg.reachable(['functions::to_string', 'functions::to_pretty_string']) if p in f.bodies and p.startswith(('functions::', 'number::', 'util::'))]
+    n = 0
+    bad = []
+    for p in sorted(cone):
+        b = f.bodies[p]
+        if b.kind == 'Promoted':
+            continue
+        from rules.editing import region_paths
+        for q in region_paths(b)[0]:
+            seq = []
+            for e in q.calls():
+                if not (called(e[1], 'String::push', 'Vec::push', 'String::push_str', 'Vec::extend_from_slice') and len(e[2]) == 2):
+                    continue
+                for s_ in subterms(e[2][1]):
+                    if s_[0] == 'bin' and s_[1] == 'Shr' and const_of(s_[3]) == 4:
+                        seq.append(('hi', show(deref_all(strip_casts(s_[2]))), e[5]))
+                        break
+                    if s_[0] == 'bin' and s_[1] == 'BitAnd' and any(const_of(x_) == 15 for x_ in (s_[2], s_[3])):
+                        x_ = s_[3] if const_of(s_[2]) == 15 else s_[2]
+                        seq.append(('lo', show(deref_all(strip_casts(x_))), e[5]))
+                        break
+            for i in range(len(seq) - 1):
+                (k1, v1, t1), (k2, v2, _) = seq[i], seq[i + 1]
+                if v1 == v2 and {k1, k2} == {'hi', 'lo'}:
+                    n += 1
+                    if k1 == 'lo':
+                        bad.append((p, f"{t1.get('file')}:{t1.get('line')}"))
+    for p, loc in sorted(set(bad)):
+        run.violation(rule, p, 'nibble-order', 'the hex digit of the low nibble (b & 0x0F) is written before the digit of the high nibble (b >> 4): the byte 0x1f is rendered "f1"', loc)
+    if not bad:
+        run.proved(rule, '<rendering cone>', 'nibble-order', f'{n} pair(s) of hex-digit pushes: high nibble first' if n else 'no byte is rendered as a pair of separately pushed hex digits', nontrivial=bool(n))
